@@ -15,7 +15,7 @@ RULE = ('exhaustive enumeration of (n, chunklen, stepsize, start, end, '
         'include_remainder) for n <= N (quick 9, thorough 14) for iterindices, '
         'n <= 6/9 for iterchunks, the full small grid for fit_frames, all '
         'out-of-range tuples over a small grid, random large fit_frames '
-        'arguments; a tuple is non-trivial when it yields >= 1 frame or must '
+        'arguments; histories in which one Array object is iterated with the same arguments before and after truncate/append; a tuple is non-trivial when it yields >= 1 frame or must '
         'be rejected; distinct by the full parameter tuple')
 EXHAUSTIVE = True
 EXHAUSTIVE_PART = 'all valid parameter tuples with n <= N; all invalid tuples on the small grid'
@@ -23,7 +23,7 @@ ASSUMPTIONS = ['closed form of Appendix B transcribes the statement',
                'arrays are 1-D float64/int16 and 2-D; frame arithmetic does not depend on dtype']
 ANCHORS = ['utils:fit_frames', 'array:Array.iterindices', 'array:Array.iterchunks']
 REQUIRED = ['mon.iterindices_valid', 'mon.iterchunks_valid', 'mon.fit_valid',
-            'mon.invalid_tuples', 'mon.contract_fit_frames']
+            'mon.invalid_tuples', 'mon.contract_fit_frames', 'mon.history_calls']
 MIN_NONTRIVIAL = {'quick': 20000, 'thorough': 200000}
 
 BOUND = {'quick': (9, 6), 'thorough': (14, 9)}
@@ -55,6 +55,8 @@ def cases(tier, seed):
             yield {'kind': 'chunks', 'shape': list(shape)}
     for n in (1, 2, 4):
         yield {'kind': 'invalid', 'n': n}
+    for k in range(6):
+        yield {'kind': 'history', 'k': k}
     yield {'kind': 'fitinvalid'}
     for k in range(16 if tier == 'quick' else 64):
         yield {'kind': 'fitrandom', 'k': k}
@@ -260,6 +262,54 @@ def run_case(case, env):
                                      f'{meth}(n={n}, chunklen={c}, stepsize={s}, startindex={b}, '
                                      f'endindex={e}) did not raise; returned {str(got)[:120]}',
                                      n=n, c=c, s=s, b=b, e=e)
+    elif kind == 'history':
+        # the same Array object is iterated with the same arguments before and after its length changes
+        D = env.darr
+        d = env.scratch.new('hist')
+        n0 = 7 + case['k']
+        vals = np.arange(n0, dtype='float64') * 2 + 1
+        a = D.asarray(d / 'h', vals, accessmode='r+')
+        argsets = [(c, s, b, e, rem) for c in (1, 2, 3, 5) for s in (None, 1, 2, 4)
+                   for b, e in ((None, None), (1, None), (None, 5), (2, 6), (0, n0)) for rem in (True, False)]
+        stages = [('start', None), ('truncate', 4 + case['k'] % 3), ('append', 3), ('truncate', 2), ('append', 6)]
+        for stage, arg in stages:
+            if stage == 'truncate':
+                D.truncate_array(a, arg)
+                vals = vals[:arg]
+            elif stage == 'append':
+                extra = np.arange(arg, dtype='float64') + 100 * len(vals)
+                a.append(extra)
+                vals = np.concatenate([vals, extra])
+            n = len(vals)
+            for c, s, b, e, rem in argsets:
+                bb, ee = 0 if b is None else b, n if e is None else e
+                valid = 0 <= bb < ee <= n
+                for meth in ('iterindices', 'iterchunks'):
+                    res.count('mon.history_calls')
+                    sigs.add(('hist', case['k'], stage, meth, c, s, b, e, rem))
+                    try:
+                        got = list(getattr(a, meth)(c, stepsize=s, startindex=b, endindex=e, include_remainder=rem))
+                        err = None
+                    except ValueError as ex:
+                        got, err = None, ex
+                    if not valid:
+                        if err is None:
+                            res.fail(f'history:out-of-range-accepted-after-{stage}',
+                                     f'after {stage} (n={n}) {meth}(c={c}, s={s}, b={b}, e={e}) did not raise', stage=stage, n=n)
+                        continue
+                    exp = frames(bb, ee, c, c if s is None else s, rem)
+                    if err is not None:
+                        res.fail(f'history:raised-on-valid-after-{stage}', f'after {stage} (n={n}) {meth}(c={c}, s={s}, b={b}, e={e}) raised {err}',
+                                 stage=stage, n=n)
+                    elif meth == 'iterindices' and [tuple(map(int, f)) for f in got] != exp:
+                        res.fail(f'history:frames-mismatch-after-{stage}',
+                                 f'after {stage} (n={n}) iterindices(c={c}, s={s}, b={b}, e={e}, rem={rem}) = {got}, expected {exp}',
+                                 stage=stage, n=n)
+                    elif meth == 'iterchunks' and (len(got) != len(exp) or any(
+                            g.tobytes() != vals[f0:f1].tobytes() for g, (f0, f1) in zip(got, exp))):
+                        res.fail(f'history:chunks-mismatch-after-{stage}',
+                                 f'after {stage} (n={n}) iterchunks(c={c}, s={s}, b={b}, e={e}, rem={rem}) yields wrong chunks', stage=stage, n=n)
+        env.scratch.drop(d)
     elif kind == 'fitinvalid':
         from darr.utils import fit_frames
         bad = [(-1, 1, None), (5, 0, None), (5, -2, None), (5, 2, 0), (5, 2, -1),
